@@ -1079,6 +1079,7 @@ def r73(ctx, repo):
                                 "not recognised")
         first_append = min(c.lineno for c in lits)
         remap = []
+        cond_dep = None
         for l2 in [n for n in walk(ex) if isinstance(n, ast.For)
                    and is_name(n.iter, blist) and n is not lp
                    and n.lineno > ups[0].lineno
@@ -1086,6 +1087,25 @@ def r73(ctx, repo):
             conds = enclosing_conditions(l2, ex)
             if not any(pol and "hierarchy" in txt(t) and dsn in names_in(t)
                        for t, pol in conds):
+                continue
+            # the re-basing must happen for every export of a hierarchy
+            # child: the conditions that guard it (beyond those that guard
+            # the upstream list itself) hold whenever the dataset is a
+            # hierarchy child, whatever the other settings are
+            outer = {id(t) for t, _ in enclosing_conditions(ups[0], ex)}
+            own = [(t, pol) for t, pol in conds if id(t) not in outer]
+            other = sorted({x for t, _ in own for x in names_in(t)}
+                           - {dsn})
+            env0 = {f"{dsn}.format": "hierarchy"}
+            env0.update({x: False for x in other})
+            try:
+                always = all(bool(Mini(env0).ev(t)) == pol
+                             for t, pol in own)
+            except Unknown as u:
+                raise AnalysisError("Export.hdf5: cannot evaluate the guard "
+                                    f"of the re-mapping (`{u}`)")
+            if not always:
+                cond_dep = other
                 continue
             v2 = l2.target.id
             a2 = [n for n in walk(l2) if isinstance(n, ast.Assign)
@@ -1110,6 +1130,11 @@ def r73(ctx, repo):
                "the upstream basins of a hierarchy child (the root's "
                "basins) are re-mapped with the child->root indices before "
                "they are stored" if remap else
+               (f"the re-mapping of the upstream basins of a hierarchy "
+                f"child is skipped depending on {cond_dep}: e.g. an "
+                f"unfiltered export keeps the root's maps – the exported "
+                f"file reads the origin at the wrong events")
+               if cond_dep else
                f"`{short(ups[0], 60)}`: for a hierarchy child these are the "
                f"basins of the root parent (RTDC_Hierarchy.basins forwards "
                f"hparent.basins); they are stored with maps relative to the "
@@ -2183,6 +2208,12 @@ MUTANTS = [
      ("                self._features = sorted(set(self.ds.features_innate\n",
       "                self._features = sorted(set(self.ds.features_loaded\n"),
      "R7.1"),
+    ("hierarchy re-mapping only for filtered exports (seeded C07_16)",
+     EXPORT,
+     ('                if ds.format == "hierarchy":\n'
+      '                    # avoid circular imports\n',
+      '                if ds.format == "hierarchy" and filtered:\n'
+      '                    # avoid circular imports\n'), "R7.3"),
     ("ChildNDArray.shape forwarded to the parent", HIEV,
      ("        return tuple([len(self)] + list(hp[self.feat][0].shape))\n",
       "        return hp[self.feat].shape\n"), "R7.6"),
